@@ -213,3 +213,177 @@ pub fn kamino_entry(_pid: &Pubkey, accounts: &[AccountInfo], data: &[u8]) -> Pro
     obligation.try_borrow_mut_data()?.copy_from_slice(&obligation_bytes(&o));
     Ok(())
 }
+
+// ====================================================================== Solend stand-in
+use solend_mocks::state::SolendMinimalReserve;
+pub const SOLEND: Pubkey = solana_sdk::pubkey!("So1endDq2YkqhipRh3WViPa8hdiSpxWy6z3Z6tMCpAo");
+pub const S_DEPOSIT: u8 = 14;
+pub const S_WITHDRAW: u8 = 15;
+pub const S_REFRESH_RESERVE: u8 = 3;
+/// obligation layout the program reads: version(1) .. deposits_len @202, borrows_len @203,
+/// first deposit @204 = reserve(32) + deposited_amount(8)
+pub const S_OBL_LEN: usize = 1300;
+pub const S_OBL_DEP: usize = 204;
+pub static SOLEND_FAULT: AtomicU64 = AtomicU64::new(0);
+pub static SOLEND_CALLS: AtomicU64 = AtomicU64::new(0);
+const WAD: u128 = 1_000_000_000_000_000_000;
+
+pub fn solend_market_authority(market: &Pubkey) -> (Pubkey, u8) {
+    Pubkey::find_program_address(&[market.as_ref()], &SOLEND)
+}
+pub fn read_solend_reserve(data: &[u8]) -> Option<SolendMinimalReserve> {
+    let n = std::mem::size_of::<SolendMinimalReserve>();
+    if data.len() < 1 + n || data[0] != 1 {
+        return None;
+    }
+    Some(bytemuck::pod_read_unaligned(&data[1..1 + n]))
+}
+pub fn solend_reserve_bytes(r: &SolendMinimalReserve) -> Vec<u8> {
+    let mut v = vec![1u8];
+    v.extend_from_slice(bytemuck::bytes_of(r));
+    v
+}
+pub fn solend_obligation_amount(data: &[u8]) -> Option<u64> {
+    if data.len() < S_OBL_LEN || data[0] != 1 {
+        return None;
+    }
+    Some(u64::from_le_bytes(data[S_OBL_DEP + 32..S_OBL_DEP + 40].try_into().unwrap()))
+}
+pub fn solend_obligation_bytes(market: &Pubkey, owner: &Pubkey, reserve: &Pubkey, amount: u64, slot: u64) -> Vec<u8> {
+    let mut d = vec![0u8; S_OBL_LEN];
+    d[0] = 1;
+    d[1..9].copy_from_slice(&slot.to_le_bytes());
+    d[10..42].copy_from_slice(market.as_ref());
+    d[42..74].copy_from_slice(owner.as_ref());
+    d[202] = 1;
+    d[203] = 0;
+    d[S_OBL_DEP..S_OBL_DEP + 32].copy_from_slice(reserve.as_ref());
+    d[S_OBL_DEP + 32..S_OBL_DEP + 40].copy_from_slice(&amount.to_le_bytes());
+    d
+}
+/// total liquidity of a Solend reserve in WADs (1e18 per native unit)
+pub fn solend_total_liq_wads(r: &SolendMinimalReserve) -> BigUint {
+    let plus = BigUint::from(r.liquidity_available_amount) * BigUint::from(WAD) + BigUint::from(u128::from_le_bytes(r.liquidity_borrowed_amount_wads));
+    let minus = BigUint::from(u128::from_le_bytes(r.liquidity_accumulated_protocol_fees_wads));
+    if plus > minus {
+        plus - minus
+    } else {
+        BigUint::zero()
+    }
+}
+pub fn solend_liq_to_col(r: &SolendMinimalReserve, liquidity: u64) -> Option<u64> {
+    let tl = solend_total_liq_wads(r);
+    let sup = r.collateral_mint_total_supply;
+    if sup == 0 || tl.is_zero() {
+        return Some(liquidity);
+    }
+    let q: BigUint = BigUint::from(liquidity) * BigUint::from(WAD) * BigUint::from(sup) / tl;
+    q.to_u64()
+}
+pub fn solend_col_to_liq(r: &SolendMinimalReserve, collateral: u64) -> Option<u64> {
+    let tl = solend_total_liq_wads(r);
+    let sup = r.collateral_mint_total_supply;
+    if sup == 0 {
+        return Some(collateral);
+    }
+    let q: BigUint = BigUint::from(collateral) * tl / BigUint::from(sup) / BigUint::from(WAD);
+    q.to_u64()
+}
+
+fn transfer_plain<'a>(token_program: &AccountInfo<'a>, from: &AccountInfo<'a>, to: &AccountInfo<'a>, auth: &AccountInfo<'a>, amount: u64, seeds: Option<&[&[u8]]>) -> ProgramResult {
+    let mut data = vec![3u8];
+    data.extend_from_slice(&amount.to_le_bytes());
+    let ix = Instruction { program_id: *token_program.key, accounts: vec![AccountMeta::new(*from.key, false), AccountMeta::new(*to.key, false), AccountMeta::new_readonly(*auth.key, true)], data };
+    let infos = [from.clone(), to.clone(), auth.clone()];
+    match seeds {
+        Some(s) => solana_sdk::program::invoke_signed(&ix, &infos, &[s]),
+        None => solana_sdk::program::invoke(&ix, &infos),
+    }
+}
+
+pub fn solend_entry(_pid: &Pubkey, accounts: &[AccountInfo], data: &[u8]) -> ProgramResult {
+    if data.is_empty() {
+        return Err(E_BAD);
+    }
+    SOLEND_CALLS.fetch_add(1, Ordering::Relaxed);
+    let fault = SOLEND_FAULT.load(Ordering::Relaxed);
+    let slot = {
+        use solana_sdk::sysvar::Sysvar;
+        solana_sdk::clock::Clock::get()?.slot
+    };
+    if data[0] == S_REFRESH_RESERVE {
+        let acc = accounts.first().ok_or(E_BAD)?;
+        let mut r = read_solend_reserve(&acc.try_borrow_data()?).ok_or(E_BAD)?;
+        r.last_update_slot = slot;
+        r.last_update_stale = 0;
+        acc.try_borrow_mut_data()?.copy_from_slice(&solend_reserve_bytes(&r));
+        return Ok(());
+    }
+    if (data[0] != S_DEPOSIT && data[0] != S_WITHDRAW) || data.len() < 9 {
+        return Err(E_BAD);
+    }
+    let amount = u64::from_le_bytes(data[1..9].try_into().unwrap());
+    let dep = data[0] == S_DEPOSIT;
+    if accounts.len() < if dep { 14 } else { 13 } {
+        return Err(E_BAD);
+    }
+    // account order of the two instructions (solend-sdk)
+    let (liq_user, reserve, supply, market, lma, obligation, owner, token_program) = if dep {
+        (&accounts[0], &accounts[2], &accounts[3], &accounts[5], &accounts[6], &accounts[8], &accounts[9], &accounts[13])
+    } else {
+        (&accounts[6], &accounts[2], &accounts[8], &accounts[4], &accounts[5], &accounts[3], &accounts[9], &accounts[11])
+    };
+    if !owner.is_signer || obligation.owner != &SOLEND || reserve.owner != &SOLEND {
+        return Err(E_BAD);
+    }
+    let mut r = read_solend_reserve(&reserve.try_borrow_data()?).ok_or(E_BAD)?;
+    let mut od = obligation.try_borrow_data()?.to_vec();
+    let cur = solend_obligation_amount(&od).ok_or(E_BAD)?;
+    let (lma_key, lma_bump) = solend_market_authority(market.key);
+    let lm = r.lending_market;
+    let sv = r.liquidity_supply_pubkey;
+    if od[10..42] != market.key.to_bytes() || od[42..74] != owner.key.to_bytes() || od[S_OBL_DEP..S_OBL_DEP + 32] != reserve.key.to_bytes() || lm != *market.key || lma.key != &lma_key || supply.key != &sv {
+        return Err(E_BAD);
+    }
+    let last = r.last_update_slot;
+    if last < slot {
+        return Err(E_STALE);
+    }
+    let new_amount;
+    if dep {
+        let mut col = solend_liq_to_col(&r, amount).ok_or(E_MATH)?;
+        match fault {
+            1 => col = col.saturating_sub(1),
+            2 => col = col.saturating_sub(2),
+            _ => {}
+        }
+        transfer_plain(token_program, liq_user, supply, owner, amount, None)?;
+        r.liquidity_available_amount = { r.liquidity_available_amount }.checked_add(amount).ok_or(E_MATH)?;
+        r.collateral_mint_total_supply = { r.collateral_mint_total_supply }.checked_add(col).ok_or(E_MATH)?;
+        new_amount = cur.checked_add(col).ok_or(E_MATH)?;
+    } else {
+        if cur < amount {
+            return Err(E_FUNDS);
+        }
+        let mut liq = solend_col_to_liq(&r, amount).ok_or(E_MATH)?;
+        match fault {
+            3 => liq = liq.saturating_sub(1),
+            4 => liq = liq.saturating_sub(2),
+            _ => {}
+        }
+        if liq > { r.liquidity_available_amount } {
+            return Err(E_FUNDS);
+        }
+        let bump = [lma_bump];
+        let seeds: [&[u8]; 2] = [market.key.as_ref(), &bump];
+        transfer_plain(token_program, supply, liq_user, lma, liq, Some(&seeds))?;
+        r.liquidity_available_amount = { r.liquidity_available_amount } - liq;
+        r.collateral_mint_total_supply = { r.collateral_mint_total_supply }.checked_sub(amount).ok_or(E_MATH)?;
+        new_amount = cur - amount;
+    }
+    r.last_update_stale = 1;
+    od[S_OBL_DEP + 32..S_OBL_DEP + 40].copy_from_slice(&new_amount.to_le_bytes());
+    reserve.try_borrow_mut_data()?.copy_from_slice(&solend_reserve_bytes(&r));
+    obligation.try_borrow_mut_data()?.copy_from_slice(&od);
+    Ok(())
+}
